@@ -1,1 +1,6 @@
 import Gossamer.Props.C05
+open Gossamer Gossamer.C05
+#print axioms C05_sound
+#print axioms C05_sound_map_partial
+#print axioms C05_absent
+#print axioms C05_wrong_value
